@@ -5,6 +5,7 @@ pub mod c03;
 pub mod c04;
 pub mod c07;
 pub mod c08;
+pub mod c09;
 pub mod c10;
 pub mod c11;
 pub mod c12;
@@ -23,6 +24,7 @@ pub fn lookup(id: &str) -> Option<Box<dyn Prop>> {
         "C07" => Some(Box::new(c07::C07)),
         "C08" => Some(Box::new(c08::C08)),
         "C05" => Some(Box::new(c05::C05)),
+        "C09" => Some(Box::new(c09::C09)),
         _ => None,
     }
 }
